@@ -263,7 +263,7 @@ def gen_plan(rng, tier='quick', traces=None):
     kinds_enabled = rng.sample(['pipeline', 'primitives', 'streaming', 'zclient'], rng.randint(1, 4))
     clients = []
     for _ in range(nclients):
-        kind = rng.choice(kinds_enabled) if rng.random() > 0.05 else 'soak'
+        kind = rng.choice(kinds_enabled) if rng.random() > (0.05 if not FOCUS_FNS else 0.12) else 'soak'
         clients.append(catalog.CLIENT_KINDS[kind](ctx))
     for cl in clients:
         _add_sibling_repeats(rng, cl, pool)
